@@ -155,6 +155,24 @@ def h_ip_default_port(ctx, spelled, compressed):
     ctx.observe("done", True)
 
 
+def h_idna_fallback_case(ctx):
+    """hosts that idna (2008) refuses and the IDNA 2003 codec accepts, next to upper-case ASCII labels: the encoded host is lower-case ASCII
+    on every route and encoding is idempotent (concrete texts: IDNA of symbolic hosts is a counted exclusion)"""
+    P = ctx.P
+    for h in ("EXAMPLE.\u2603.com", "www.\u2603.COM", "B\u00dcCHER.\u2603.De", "\u2603.Example"):
+        for route, mk in (("ctor", lambda: P.URL("http://" + h + "/")), ("build", lambda: P.URL.build(scheme="http", host=h)),
+                          ("with_host", lambda: P.URL("http://x/").with_host(h))):
+            r = call(mk)
+            if r[0] != "ok":
+                ctx.check("refusal-is-ValueError", r[1] == "ValueError", (h, route, r[1]))
+                continue
+            raw = r[1].raw_host
+            ctx.check("raw_host-lower-case-ascii", raw.isascii() and raw == raw.lower(), (h, route, raw))
+            again = call(lambda: P.URL(str(r[1])).raw_host)
+            ctx.check("encoding-idempotent", again[0] == "ok" and again[1] == raw, (h, route, raw, again[1]))
+    ctx.observe("done", True)
+
+
 def h_nfkc_concrete(ctx):
     """NOT part of the solver claim: concrete enumeration of every code point whose NFKC form contains a URL delimiter
     (computed from the interpreter's unicodedata) in host and userinfo position - each must be rejected"""
@@ -184,6 +202,7 @@ def families(tier):
         if ver == 6 and (sp in ("::1", "2001:DB8::FF00:42:8329", "::ffff:1.2.3.4") or not q):
             fams.append(Family("ip-default-port/%s" % sp, h_ip_default_port, dict(spelled=sp, compressed=comp)))
     fams.append(Family("nfkc-screen-concrete", h_nfkc_concrete, {}))
+    fams.append(Family("idna-fallback-case-concrete", h_idna_fallback_case, {}))
     for sp, comp, ver in IPS:
         for zn in ((0, 1, 2) if q else (0, 1, 2, 3)):
             if zn and ver != 6:
